@@ -61,6 +61,9 @@ T = {
  "W5_C16_fmindex_unsupported_mutates": ("C16", "FMINDEX extractSubstr without sampling clears the alphabet flag of the pattern's last byte before returning NULL", "FMINDEX built with BWT sampling 0; extractSubstr(p), then locate / locatePrefix / extractPrefix of anything containing p's last byte: no match"),
  "W5_C18_huffman_depth1": ("C18", "Huffman encodeHuff stops walking up at level 2", "a frequency vector whose most frequent symbol gets a 1-bit codeword (>= 2/5 of the mass): it is written as 10, 11 is unused: Kraft sum 3/4"),
  "W5_C20_rule_array_growth": ("C20", "Dictionary::insertRule clears the new part of the rule array starting one entry too early", "inputs on which Re-Pair creates more than 256 rules: rule 255 (then 340, 453, ...) becomes (0,0)"),
+ "W6_C12_fmindex_last_sample": ("C12", "FMINDEX build_ssa converts (len+1)/step suffix samples into member IDs instead of (len+1)/step+1 (the same site as the first wave's C05 seed, written independently against the tuning-parameter clause)", "FMINDEX with BWT sampling step >= 2 not dividing len+1; a substring query whose backward walk ends on the last sample in suffix-array order returns a text offset instead of an ID; step 1, locate, extract and prefix search unaffected"),
+ "W6_C13_xbw_dup_skip_one": ("C13", "IteratorDictIDXBWDuplicates::next skips at most one repeated entry of the sorted result array", "XBW locateSubstr with a pattern that occurs three or more times inside one member (a in banana); every other kind and iterator unaffected"),
+ "W6_C19_wtnoptrs_load_height": ("C19", "WaveletTreeNoptrs::load rejects an image whose height differs from bits(max_v), forgetting that the constructors use max(1, bits(max_v))", "WaveletTreeNoptrs over a non-empty sequence whose only symbol is 0 (max_v = 0, height 1), after save/load: load returns NULL; all answers before save and every other sequence unaffected"),
 }
 for d in sorted(os.listdir(S)):
     p = os.path.join(S, d)
